@@ -21,6 +21,7 @@ import (
 	"github.com/gopcua/opcua/uacp"
 	"github.com/gopcua/opcua/uasc"
 
+	"verif/pkg/chanpair"
 	"verif/pkg/keys"
 )
 
@@ -257,3 +258,35 @@ func IsMSG(f []byte) bool { return len(f) >= 4 && string(f[:3]) == "MSG" }
 
 // Clone copies a frame.
 func Clone(f []byte) []byte { return append([]byte(nil), f...) }
+
+// HardClose tears a pair down without leaving sockets in TIME_WAIT (tens of
+// thousands of short-lived pairs otherwise exhaust the ephemeral ports and
+// later pairs fail with "bind: address already in use"): the tap resets its
+// connections and the endpoints close with SO_LINGER 0. Only for use after all
+// observations of a case were made - a reset discards data in flight. The
+// channels' Close methods are called afterwards to end their timer goroutines.
+func HardClose(p *chanpair.Pair) {
+	if p == nil {
+		return
+	}
+	if p.Tap != nil {
+		p.Tap.Reset()
+	}
+	if p.ClientConn != nil && p.ClientConn.TCPConn != nil {
+		_ = p.ClientConn.SetLinger(0)
+	}
+	if p.ServerConn != nil && p.ServerConn.TCPConn != nil {
+		_ = p.ServerConn.SetLinger(0)
+	}
+	p.Close()
+	for _, sc := range []*uasc.SecureChannel{p.Client, p.Server} {
+		if sc == nil {
+			continue
+		}
+		sc := sc
+		go func() {
+			defer func() { _ = recover() }()
+			_ = sc.Close()
+		}()
+	}
+}
